@@ -62,7 +62,7 @@ func init() {
 }
 
 const ruleRaw = "rawdb: a reference file of 2..34 records = a database of the small-case generator (2..25 references, taxonomy of 1..12 nodes, root taxid 1) in which each record is, by a drawn operation, left as it is, given a taxid unknown to the taxonomy (0, -1, 999999999 or a fresh identifier), given an old identifier that merged.dmp maps to its taxon, stripped of its taxid attribute, or given the identifier of an earlier record; 0..4 further records are inserted first, last or anywhere: unknown-taxid records (unrelated, exact copy or 1-2 edits of the first query, relative of a kept reference), references of 1..3 nt and of 4..19 nt, copies of a record under another taxid. At least 2 records are kept. " +
-	"The database the commands document they use = the records whose taxid resolves (directly or through merged.dmp) or is absent (absent = taxid 1, the root); the others are discarded. 2..5 queries (the query of the generator; 0..3 edits of a kept reference, preferably one that stands after a discarded record; ends changed). --max-cpu 1/2/4, --batch-size default/1/3. " +
+	"The database the commands document they use = the records whose taxid resolves (directly or through merged.dmp) or is absent (absent = taxid 1, the root); the others are discarded. 2..5 queries (the query of the generator; 0..3 edits of a kept reference, preferably one that stands after a discarded record or a 4..19 nt one; ends changed). --max-cpu 1/2/4, --batch-size default/1/3. " +
 	"Oracle: (A) obirefidx <file> writes exactly the kept records (identifier, sequence, taxid attribute untouched, matched as a multiset when identifiers repeat), each with the brute-force index of the kept database; (B) obitag -R <file> and (C) obitag -R <file with the indices of A on the kept records, discarded records in place> give every query the brute-force taxid, obitag_match_count, obitag_bestid (tolerance 1e-12) and a best match that is the identifier of a brute-force best reference, all computed on the kept database. (B) is not run when the last record of the file is a discarded one (see Domain decisions). Inconclusive subprocess = case counted, not judged. " +
 	"One evaluation = one file. Non-trivial = a discarded record stands in the file before a brute-force best reference of some query whose prefilter bound len(query)-3-4*dmin excludes at least one kept reference, or a best reference of some query is an alias / no-taxid / repeated-identifier / short record. Distinct = hash of (records, taxonomy with aliases, queries, options)."
 
@@ -535,8 +535,8 @@ func genRaw(t *rapid.T) (rawCase, []string) {
 			p := recs[rapid.IntRange(0, len(recs)-1).Draw(t, label+"_of")]
 			s, _ := gen.Mutate(t, label, p.Seq, rapid.IntRange(0, 3).Draw(t, label+"_k"), alphabet, "sid")
 			insert(label, rawRec{ID: id, Seq: clip(t, label+"_clip", s, 4, maxRefLen, alphabet), Taxid: unknown(label), Kind: "unknown_taxid_relative"})
-		case kind <= 8: // a reference shorter than a 4-mer, or shorter than what the other generators build
-			n := rapid.SampledFrom([]int{1, 2, 3, 3, 4, 5, 7, 12, 19}).Draw(t, label+"_len")
+		case kind <= 9: // a reference shorter than a 4-mer, or shorter than what the other generators build
+			n := rapid.SampledFrom([]int{1, 2, 3, 3, 4, 5, 7, 8, 10, 12, 16, 19}).Draw(t, label+"_len")
 			s := gen.Seq(t, label, n, alphabet)
 			if n >= 4 && n <= len(db.Query) && rapid.Bool().Draw(t, label+"_piece") { // a piece of the first query
 				o := rapid.IntRange(0, len(db.Query)-n).Draw(t, label+"_off")
@@ -564,9 +564,13 @@ func genRaw(t *rapid.T) (rawCase, []string) {
 		}
 	}
 	var after []int // kept positions standing after the first discarded record
+	var short []int // kept positions of the references of 4..19 nt
 	for p, fp := range k.filePos {
 		if firstDiscarded >= 0 && fp > firstDiscarded {
 			after = append(after, p)
+		}
+		if c.Recs[fp].Kind == "short_4_19" {
+			short = append(short, p)
 		}
 	}
 	c.Queries = []string{db.Query}
@@ -576,6 +580,9 @@ func genRaw(t *rapid.T) (rawCase, []string) {
 		pick := rapid.IntRange(0, pool-1).Draw(t, label+"_of")
 		if len(after) > 0 && rapid.Bool().Draw(t, label+"_after") {
 			pick = after[pick%len(after)]
+		}
+		if len(short) > 0 && rapid.IntRange(0, 2).Draw(t, label+"_short") == 0 {
+			pick = short[pick%len(short)]
 		}
 		q, _ := gen.Mutate(t, label, k.db.Refs[pick], rapid.SampledFrom([]int{0, 0, 1, 1, 2, 3}).Draw(t, label+"_k"), alphabet, "sid")
 		if rapid.IntRange(0, 4).Draw(t, label+"_ends") == 0 {
